@@ -137,6 +137,8 @@ class Path:
         self.env = env
         self.outcome = outcome     # 'return' | 'raise'
         self.trail = trail         # [(lineno, branch)]
+        self.value = None          # value of the return expression, if any
+        self.node = None
 
 
 class Interp:
@@ -189,6 +191,8 @@ class Interp:
             a, b = self.ev(e.left, env, selfname), self.ev(e.comparators[0], env, selfname)
             if isinstance(a, FV) and isinstance(b, FV):
                 return compare(a, e.ops[0], b)
+            if isinstance(a, bool) and isinstance(b, bool) and isinstance(e.ops[0], (ast.Eq, ast.NotEq, ast.Is, ast.IsNot)):
+                return (a == b) if isinstance(e.ops[0], (ast.Eq, ast.Is)) else (a != b)
             return None
         if isinstance(e, ast.BinOp):
             a, b = self.ev(e.left, env, selfname), self.ev(e.right, env, selfname)
@@ -282,7 +286,13 @@ class Interp:
             self.paths.append(Path(env, "raise", trail))
             return []
         if isinstance(st, ast.Return):
-            self.paths.append(Path(env, "return", trail))
+            pth = Path(env, "return", trail)
+            pth.node = st
+            try:
+                pth.value = self.ev(st.value, env, selfname) if st.value is not None else None
+            except Unsupported:
+                pth.value = ("unsupported", ast.unparse(st.value))
+            self.paths.append(pth)
             return []
         if isinstance(st, ast.Assign):
             v = self.ev(st.value, env, selfname)
@@ -340,7 +350,7 @@ class Interp:
     def run(self, f, env):
         self.paths = []
         self.stack = []
-        selfname = f.params[0]
+        selfname = f.params[0] if f.params else "self"
         body = [s for s in f.node.body]
         states = self.block(body, [(dict(env), [])], f, selfname)
         for env2, trail in states:
